@@ -46,7 +46,7 @@ import (
 )
 
 var workerFlag = flag.Bool("worker", false, "internal: run as worker (units on stdin)")
-var partFlag = flag.String("part", "all", "all|histories|damage|live")
+var partFlag = flag.String("part", "all", "all|histories|damage|live|replay")
 
 // ---- unit generation ----
 
@@ -142,6 +142,54 @@ func imageUnits(group string, kinds []kind, n int) []unit {
 }
 
 // scripted: a large image; its byte offsets are spread over several units
+// replayUnits: logs [control record?][marker 0][n records of the last height], all written with WriteSync, without a
+// rotation or with one right after the marker; every variant is consumed by the real catchupReplay (see replay.go).
+func replayUnits(quick bool) []unit {
+	kinds := []kind{kRTimeout, kRVote, kRProposal, kRPart}
+	maxN := 4
+	if quick {
+		kinds, maxN = kinds[:3], 3
+	}
+	var us []unit
+	for n := 2; n <= maxN; n++ {
+		seq := make([]int, n)
+		for {
+			for ctrl := 0; ctrl < 2; ctrl++ {
+				for rot := 0; rot < 2; rot++ {
+					if quick && rot == 1 && n > 2 {
+						continue
+					}
+					var ops []int
+					if ctrl == 1 {
+						ops = append(ops, sy(kRTimeout))
+					}
+					ops = append(ops, sy(kMarker0))
+					if rot == 1 {
+						ops = append(ops, tickCode)
+					}
+					for _, ki := range seq {
+						ops = append(ops, sy(kinds[ki]))
+					}
+					us = append(us, unit{Phase: 2, Group: fmt.Sprintf("replay/%d-records-after-marker", n), Ops: ops, Replay: true, Cost: float64(200*n+80) * 5 * 100e-6})
+				}
+			}
+			i := n - 1
+			for i >= 0 {
+				seq[i]++
+				if seq[i] < len(kinds) {
+					break
+				}
+				seq[i] = 0
+				i--
+			}
+			if i < 0 {
+				break
+			}
+		}
+	}
+	return us
+}
+
 func scripted(group string, bytesEst int, ops ...int) []unit {
 	n := bytesEst/4000 + 1
 	var us []unit
@@ -195,6 +243,9 @@ func buildUnits(r *vk.Run) []unit {
 			lu("live1", 7)
 			lu("live2", 7)
 		}
+	}
+	if *partFlag == "all" || *partFlag == "replay" {
+		us = append(us, replayUnits(r.Quick())...)
 	}
 	if *partFlag == "all" || *partFlag == "damage" {
 		us = append(us, imageUnits("damage/all-kinds/1-record", small, 1)...)
@@ -410,6 +461,7 @@ func main() {
 			Alpha   string `json:"alpha"`
 			OpIDs   []int  `json:"op_ids"`
 			Start   int    `json:"start"`
+			Replay  bool   `json:"replay"`
 			OpCodes []int  `json:"op_codes"`
 			Unit    *unit  `json:"unit"`
 		}
@@ -422,7 +474,7 @@ func main() {
 		case rp.Phase == 1:
 			units = []unit{{Phase: 1, Group: "replay", Alpha: rp.Alpha, Prefix: rp.OpIDs, Exact: true, Start: rp.Start}}
 		default:
-			units = []unit{{Phase: 2, Group: "replay", Ops: rp.OpCodes}}
+			units = []unit{{Phase: 2, Group: "replay", Ops: rp.OpCodes, Replay: rp.Replay}}
 		}
 		for i := range units {
 			units[i].ID = i
@@ -526,7 +578,7 @@ func main() {
 		row := map[string]interface{}{"group": g, "units": groupUnits[g][0], "units_completed": groupUnits[g][1], "distinct_states_or_images": len(a.states[g])}
 		for k, n := range a.stats[g] {
 			total[k] += n
-			if strings.HasPrefix(k, "read/") || strings.HasPrefix(k, "search/") || strings.HasPrefix(k, "live/") {
+			if strings.HasPrefix(k, "read/") || strings.HasPrefix(k, "search/") || strings.HasPrefix(k, "live/") || strings.HasPrefix(k, "replay/") {
 				outcomes[k] += n
 				continue
 			}
@@ -583,6 +635,7 @@ func main() {
 	r.Set("transitions", transitions)
 	r.Set("traces_validated_against_impl", total["histories"]+total["images"]+total["live_histories"])
 	r.Set("histories", total["histories"])
+	r.Set("catchup_replays", total["replays"])
 	r.Set("live_reader_histories", total["live_histories"])
 	r.Set("live_reader_reads", total["live_reads"])
 	r.Set("damage_images", total["images"])
